@@ -1,59 +1,13 @@
-(* Where the code as it is violates the statement of C19: concrete witnesses (D8: `$` in _language_regexp;
-   D15: f'/{meta_language}/' evaluated with meta_language = None), and table facts about language names. *)
+(* Table facts about language names, and absence of foreign exceptions on the tables of /repo. *)
 From Coq Require Import List NArith Bool Arith Lia.
 From I18n Require Import Lib.Outcome Model.Ling Model.LingData Generated.IsoCodes Spec.Locale
   Proofs.LingParse Proofs.LingFix Proofs.LingCheck.
 Import ListNotations.
 Local Open Scope N_scope.
 
-Definition s_pl_nl : list N := [112; 108; 10].            (* "pl\n" *)
 Definition l_pl : language := mkLang [112; 108] None None None.
 
-Lemma parse_pl_nl : parse_language s_pl_nl = Ok l_pl.
-Proof. vm_compute. reflexivity. Qed.
-
-(* the statements as the property gives them, for the scanner as it is *)
-Definition roundtrip_statement : Prop :=
-  forall s l, parse_language s = Ok l -> same_up_to_encoding_case s (str_language l).
-Definition reject_iff_statement : Prop :=
-  forall s, parse_language s = Err LSyntax <-> ~ locale_grammar s.
-
-Theorem roundtrip_refuted : ~ roundtrip_statement.
-Proof.
-  intros H. specialize (H _ _ parse_pl_nl). apply same_up_length in H. vm_compute in H. discriminate.
-Qed.
-
-Theorem reject_iff_refuted : ~ reject_iff_statement.
-Proof.
-  intros H. destruct (H s_pl_nl) as [_ H2].
-  assert (Hn : ~ locale_grammar s_pl_nl).
-  { intros G. apply (grammar_no_newline _ G). exists [112; 108]. reflexivity. }
-  specialize (H2 Hn). rewrite parse_pl_nl in H2. discriminate.
-Qed.
-
-(* D15: path "a/None/b/pl.po", Language: xx *)
-Definition p_none : list N := [97; 47; 78; 111; 110; 101; 47; 98; 47; 112; 108; 46; 112; 111].
-Definition s_xx : list N := [120; 120].
 Definition id_cfg : ling_cfg := gen_cfg (fun x => x).
-
-Definition unable_statement : Prop :=
-  forall cfg opt path metas pls pcs ds lang,
-    check_language cfg opt path metas pls pcs false = Ok (ds, lang) ->
-    (In DUnable ds <->
-       external_source cfg opt path = None /\ field_loc cfg metas = None /\ poedit_language cfg pls pcs = None).
-
-Lemma check_none_witness :
-  check_language id_cfg None p_none [s_xx] [] [] false = Ok ([DInvalidLanguage s_xx None; DUnable], None).
-Proof. vm_compute. reflexivity. Qed.
-
-Lemma external_none_witness : external_source id_cfg None p_none = Some (l_pl, SrcPathname, false).
-Proof. vm_compute. reflexivity. Qed.
-
-Theorem unable_refuted : ~ unable_statement.
-Proof.
-  intros H. destruct (H _ _ _ _ _ _ _ _ check_none_witness) as [H1 _].
-  destruct H1 as (E & _); [right; left; reflexivity|]. rewrite external_none_witness in E. discriminate.
-Qed.
 
 (* ---------- the language-name table ---------- *)
 (* every section name of data/languages is a locale name with known, canonical codes *)
@@ -113,18 +67,16 @@ Proof.
   rewrite Hl. discriminate.
 Qed.
 
-(* on the tables of /repo, check_language fails only through `assert ext == '.po'` *)
-Theorem check_language_crash munch opt path metas pls pcs tmpl c :
-  check_language (gen_cfg munch) opt path metas pls pcs tmpl = Crash c ->
-  c = CAssertion /\ tmpl = false /\ assertion_fails (gen_cfg munch) opt path.
+(* on the tables of /repo, check_language raises nothing *)
+Theorem check_language_no_crash munch opt path metas pls pcs tmpl c :
+  check_language (gen_cfg munch) opt path metas pls pcs tmpl <> Crash c.
 Proof.
   set (cfg := gen_cfg munch).
   assert (Hn : forall nm k, get_language_for_name cfg nm <> Crash k).
   { intros nm k. unfold get_language_for_name. apply lookup_no_crash. }
   unfold check_language. destruct (field_value metas) as [[d0 meta] dd].
   destruct tmpl; [discriminate|].
-  destruct (external_language_spec cfg opt path) as [[He _]|[He Ha]]; rewrite He; cbn [obind].
-  2:{ intros H; inversion H. auto. }
+  rewrite external_language_spec; cbn [obind].
   assert (Hf : forall k, field_language cfg meta <> Crash k).
   { intros k. unfold field_language. destruct meta as [[|c1 o0]|]; try discriminate.
     destruct (parse_language (c1 :: o0)) as [l|e1|k1] eqn:Ep; cbn [obind].
